@@ -1,5 +1,5 @@
 #!/bin/bash
-# usage: tools/seedbatch.sh <tier> <seed dirs...>   (dirs like /tmp/seed/C05/m1); appends to /tmp/seed/results.txt
+# usage: tools/seedbatch.sh <tier> <seed dirs...>   (dirs like /tmp/seed/C05/m1); appends to ${RESULTS:-/tmp/seed/results.txt}
 TIER=$1; shift
 for d in "$@"; do
   pid=$(basename $(dirname $d)); m=$(basename $d)
@@ -8,5 +8,5 @@ for d in "$@"; do
   res=$(echo "$out" | grep CHECK-RESULT)
   nviol=$(echo "$out" | grep -c "^VIOLATION")
   extra=$(echo "$out" | grep -E "INCONCLUSIVE|HARNESS-ERROR" | head -2 | cut -c1-160 | tr '\n' '|')
-  echo "$pid/$m $TIER :: $conf :: $res violations=$nviol :: $extra" >> /tmp/seed/results.txt
+  echo "$pid/$m $TIER :: $conf :: $res violations=$nviol :: $extra" >> ${RESULTS:-/tmp/seed/results.txt}
 done
